@@ -102,6 +102,19 @@ CHECKS["C09"] = dict(
          "(e.g. axis = -z, plane through nodes) satisfies the property.",
     technique="TLC on spec/Tissue (population protocol) + TLC validation (DivideTrace, spec/Mesh predicates) of real divide_cell results")
 
+CHECKS["C15"] = dict(
+    category="model_checking", design_ref="DESIGN.md §C15",
+    text="PlusCal specifications ParDivide (threads read the shared list without a lock, critical section for the population update, append after the join) "
+         "and ExcHandler (store under critical, rethrow after the barrier) are checked by TLC over every interleaving (NoReadDuringResize, FinalOK = no cell "
+         "lost / duplicated / duplicate id, RethrownWasThrown, AfterAllFinished, NoneLost, termination under fairness); the in-loop append of the code before "
+         "the fix is refuted as a control. Binding: real cell_divider::run under seeded scheduling delays with 1-16 threads observed through hook H5 (every "
+         "unlocked read, every critical section with the list's size/buffer) and real parallel_exception_handler / refine_meshes / mesh_writer::write with "
+         "failing items; TLC (ParTrace) validates the ticket-ordered traces. Whole solver runs on non-interacting cells at 1..16 threads and repeated must have "
+         "bit-identical digests.",
+    note="A race is shown as a read event lying inside another thread's list-resizing critical section (lockset argument), not as a crash; delays are injected "
+         "at hook points only; per-cell re-seeding (H3) makes division results schedule independent; digests are compared on runs without division.",
+    technique="PlusCal/TLA+ specs model-checked by TLC (all interleavings) + TLC trace validation of hooked real parallel phases under seeded schedules")
+
 PENDING = {}   # property id -> reason (filled below for everything not in CHECKS)
 NOT_APPLICABLE = {
  "C10": "memory safety / undefined behaviour has no representation in a TLA+ state (no addresses, lifetimes or indeterminate values); "
